@@ -429,3 +429,15 @@ func Diff(a, b StoreDump) []DiffEntry {
 func (e DiffEntry) String() string {
 	return fmt.Sprintf("%s/%x: %x -> %x", e.Store, e.Key, e.A, e.B)
 }
+
+// PrepareProposal asks the application to build a proposal for the next height from candidate txs.
+func (c *Chain) PrepareProposal(txs [][]byte, maxBytes int64) (res *abci.ResponsePrepareProposal, err error) {
+	defer c.guard("PrepareProposal", &err)
+	return c.App.PrepareProposal(&abci.RequestPrepareProposal{Txs: txs, MaxTxBytes: maxBytes, Height: c.Height + 1, Time: c.Time.Add(time.Second), ProposerAddress: ValConsAddr(0)})
+}
+
+// ProcessProposal asks the application to validate a proposal for the next height.
+func (c *Chain) ProcessProposal(txs [][]byte) (res *abci.ResponseProcessProposal, err error) {
+	defer c.guard("ProcessProposal", &err)
+	return c.App.ProcessProposal(&abci.RequestProcessProposal{Txs: txs, Height: c.Height + 1, Time: c.Time.Add(time.Second), ProposerAddress: ValConsAddr(0), Hash: HeaderHash(c.Height+1, c.Time.Add(time.Second))})
+}
